@@ -123,7 +123,9 @@ CLAIMED = {
         "note": "Trusted: the reference scene-graph model (~120 lines); object message bodies are built with the repo's own "
                 "serializer (as its tests do). Seated avatars are modelled as the code and the reference viewer treat "
                 "them (exempt from cascading kills); child order not judged. Failing observers (addon object hooks, "
-                "object-event subscribers) run alongside in 3 of 5 plans. A torn-down region may be entered again.",
+                "object-event subscribers) run alongside in 3 of 5 plans. A torn-down region may be entered again; stragglers "
+                "of a region that is gone may name objects living elsewhere (the object then belongs to no region, by the "
+                "code's documented design, and is out of the comparisons until a tracked region announces it again).",
     },
     "C15": {
         "text": "Both OS processes of the HTTP side (real SLMITMAddon hooks + callback pump, real MITMProxyEventManager.run) "
